@@ -62,7 +62,7 @@ def gen_inputs(ctx):
         cfgs.append(configs.synthetic(rnd, enduse=eu, plant=pl, life=life, cy=cy))
     for _ in range(ctx.n(12, 300)):   # add-on runs (the add-on report writer needs exactly one construction year)
         eu = rnd.choice(configs.ENDUSES)
-        cfgs.append(configs.synthetic(rnd, enduse=eu, plant=rnd.choice(configs.ELEC_PLANTS if eu != 2 else [9, 6]), cy=1, addons=True))
+        cfgs.append(configs.synthetic(rnd, enduse=eu, plant=rnd.choice(configs.ELEC_PLANTS if eu != 2 else [9, 6]), cy=rnd.choice([1, 1, 2, 3]), addons=True, addons_any_cy=True))
     texts = [('synthetic', runner.params_to_text(c)) for c in cfgs]
     texts += [('example:' + n, t) for n, t in configs.example_texts(slow=not ctx.quick)]
     return texts
@@ -135,7 +135,7 @@ def run_inputs(ctx, texts):
     terms, owners = [], []
     rejected = 0
     for (origin, text), r in zip(texts, results):
-        if not r['ok'] or r['snap'] is None:
+        if r['snap'] is None:      # (a run whose report writer fails after Calculate still has its post-Calculate snapshot)
             rejected += 1
             ctx.count('whole-runs', rejected={(r['error'] or 'no snapshot')[:60]: 1})
             continue
